@@ -134,6 +134,7 @@ pub struct Walk {
     loaded_pt: Option<usize>,
     pending_sig: Option<Snap>,
     catalog_edited: bool,
+    has_validation: bool,
     refused_create_since_snap: bool,
     loaded_summary: Option<BTreeMap<u32, decode::PVal>>,
     loaded_streams: BTreeMap<String, String>,
@@ -146,7 +147,7 @@ impl Walk {
             out: vec![], checked: 0, nontrivial: HashSet::new(), db: RefDb::default(), db_known: false,
             last_snap: None, ok_mutation_since_snap: false, before_reopen: None, after_reopen: false,
             streams: BTreeMap::new(), streams_known: false, summary: BTreeMap::new(), summary_known: false,
-            session_ok: false, loaded: None, loaded_pt: None, pending_sig: None, catalog_edited: false, refused_create_since_snap: false, loaded_summary: None, loaded_streams: BTreeMap::new(), is_foreign: false,
+            session_ok: false, loaded: None, loaded_pt: None, pending_sig: None, catalog_edited: false, has_validation: true, refused_create_since_snap: false, loaded_summary: None, loaded_streams: BTreeMap::new(), is_foreign: false,
         }
     }
     fn fail(&mut self, tags: &[&'static str], i: usize, q: &str, r: &str, why: String) {
@@ -176,6 +177,7 @@ impl Walk {
         match t[0] {
             "new" => {
                 self.catalog_edited = false;
+                self.has_validation = true;
                 self.is_foreign = false;
                 self.loaded = None;
                 self.db = RefDb::default();
@@ -252,7 +254,7 @@ impl Walk {
                 } else {
                     self.refused_create_since_snap = true;
                 }
-                if r != "ok" && want == Some(true) && !self.catalog_edited {
+                if r != "ok" && want == Some(true) && !self.catalog_edited && self.has_validation {
                     // (after direct edits of the catalog tables a definition may collide with rows
                     // already there: refusing it is right, and must leave nothing behind - C04)
                     self.fail(&["C06", "C20"], i, q, r, "a valid table definition within all limits was refused".into());
@@ -521,6 +523,19 @@ impl Walk {
                 }
                 self.nontrivial.insert(q.to_string());
             }
+            "@catalog_hand_limit" => {
+                if r.contains("panic") {
+                    self.fail(&["C20", "C04", "C09"], i, q, r, "a create_table at the row limit of a hand-filled catalog table panics".into());
+                } else {
+                    for w in ["fill:ok", "hand-over:err", "hand-over-unchanged=true", "hand-exact:ok", "hand-exact-listed=true", "flush:ok"] {
+                        if !r.contains(w) {
+                            self.fail(&["C20", "C04"], i, q, r, format!("a catalog table filled by hand to its row limit: expected `{w}` (a create_table that does not fit is refused and changes nothing; one that fits exactly is accepted)"));
+                            break;
+                        }
+                    }
+                }
+                self.nontrivial.insert(q.to_string());
+            }
             "@refcount_saturation" => {
                 let n: usize = t[1].parse().unwrap_or(0);
                 if r.contains("panic") {
@@ -607,7 +622,8 @@ impl Walk {
                 // (a successful change between the reopen and this snapshot makes them incomparable)
                 if !self.ok_mutation_since_snap && before != snap {
                     let why = describe_diff(&before, &snap);
-                    self.fail(&["C01"], i, q, r, format!("after close and reopen: {why}"));
+                    let tags: &[&'static str] = if self.is_foreign { &["C01", "C02"] } else { &["C01"] };
+                    self.fail(tags, i, q, r, format!("after close and reopen: {why}"));
                 }
             }
         } else if let Some((_, last)) = &self.last_snap {
@@ -841,6 +857,8 @@ impl Walk {
                 self.fail(&["C10", "C17"], i, q, r, format!("summary languages are {have:?}, expected {want:?}"));
             }
         }
+        // (a database written by something else may lack `_Validation`: create_table is then refused)
+        self.has_validation = snap.tables.contains_key("_Validation");
         self.last_snap = Some((i, snap));
         self.ok_mutation_since_snap = false;
         self.refused_create_since_snap = false;
